@@ -35,7 +35,8 @@ type c07Case struct {
 	// (input moved across the parser's internal buffer boundary).
 	Fam string `json:"fam"`
 	// Origin of the input: "syn" (genSyn program), "meta" (metacharacter
-	// string), "seed" (hand-written lookahead shapes).
+	// string), "seed" (hand-written lookahead shapes), "esc" (escape-dense
+	// inputs, c07_esc.go).
 	Origin string `json:"origin"`
 	// Kind is genSyn's tier of the program (3 = grammar depth 2).
 	Kind int `json:"kind,omitempty"`
